@@ -238,8 +238,14 @@ theorem build_good (s : Stmt) : ∀ (prev b : Nat) (J : Jumps) (σ : BState), b 
   | aug x op e =>
     intro prev b J σ hb ho
     simp only [build, ensure_some, buildE]
-    have g := bld_good e .val b σ hb ho
-    exact (GoodV.step hb g (touch_addStmt _ _ _) (by rw [blk_addStmt_same _ _ _ g.lt]; exact g.opn)).toS
+    split
+    · have g0 : GoodV σ b b (preBind true (.var x) b σ).2 := preBind_good hb (GoodV.refl hb ho) true (.var x)
+      simp only [preBind, if_true] at g0
+      have g1 := bld_good e .val b _ g0.lt g0.opn
+      have g := GoodV.trans hb g0 g1
+      exact (GoodV.step hb g (touch_addStmt _ _ _) (by rw [blk_addStmt_same _ _ _ g.lt]; exact g.opn)).toS
+    · have g := bld_good e .val b σ hb ho
+      exact (GoodV.step hb g (touch_addStmt _ _ _) (by rw [blk_addStmt_same _ _ _ g.lt]; exact g.opn)).toS
   | expr e =>
     intro prev b J σ hb ho
     simp only [build, ensure_some, buildE]
